@@ -50,6 +50,8 @@ ASSUMPTIONS = [
 ]
 
 UMASK = 0o022
+TYPE_NAMES = {tarfile.REGTYPE: "reg", tarfile.AREGTYPE: "reg", tarfile.DIRTYPE: "dir", tarfile.SYMTYPE: "sym", tarfile.LNKTYPE: "lnk",
+              tarfile.FIFOTYPE: "fifo", tarfile.CHRTYPE: "chr"}
 
 
 def scratch_dir(ctx):
@@ -215,16 +217,16 @@ COMP = ["a", "b", "d", "f", "s", "t", "x", "h", "victim", "victim2", "out", "dis
         "ä€", "sp ace", "$(x)", "-q'"]
 
 
-def gen_relpath(r, depth=None, dots=0.18, allow_empty=True):
+def gen_relpath(r, depth=None, dots=0.07, allow_empty=True):
     n = r.choice([1, 1, 1, 2, 2, 3]) if depth is None else depth
     comps = []
     for _ in range(n):
         k = r.random()
         if k < dots:
             comps.append("..")
-        elif k < dots + 0.04:
+        elif k < dots + 0.02:
             comps.append(".")
-        elif k < dots + 0.06 and allow_empty:
+        elif k < dots + 0.03 and allow_empty:
             comps.append("")
         else:
             comps.append(r.choice(COMP[:10]) if r.random() < 0.8 else r.choice(COMP))
@@ -235,20 +237,20 @@ def gen_relpath(r, depth=None, dots=0.18, allow_empty=True):
 
 def gen_member_name(r, prev):
     k = r.random()
-    if k < 0.70:
+    if k < 0.76:
         if prev and r.random() < 0.35:
             base = r.choice(prev)                      # below / equal to an earlier member (duplicates, write-through)
             return base if r.random() < 0.4 else base + "/" + gen_relpath(r, 1)
         return "content/" + gen_relpath(r)
-    if k < 0.74:
+    if k < 0.79:
         return "content//" + gen_relpath(r, dots=0)    # absolute after stripping the prefix
-    if k < 0.78:
-        return r.choice(["content", "meta", "content/", "meta/", "meta/other", "meta/audit.json.gz/x"])
     if k < 0.82:
+        return r.choice(["content", "meta", "content/", "meta/", "meta/other", "meta/audit.json.gz/x"])
+    if k < 0.85:
         return r.choice(["contentx/f", "contents", "content.d/f", "Content/f"])
-    if k < 0.86:
+    if k < 0.88:
         return r.choice(["other", "x/y", "../x", "/abs/x", "./content/f", ""])
-    if k < 0.90:
+    if k < 0.91:
         return "content/../" + gen_relpath(r)
     if k < 0.95:
         return "content/" + r.choice(["EVIL", "a", "nonex"]) + "/../" + r.choice(["", "../EVIL/../workspace/", "../workspace/"]) + gen_relpath(r, dots=0)
@@ -273,9 +275,9 @@ def gen_symlink_target(r, jail):
 def gen_linkname(r, prev, jail):
     k = r.random()
     inside = [p for p in prev if p.startswith("content/")]
-    if k < 0.45 and inside:
+    if k < 0.55 and inside:
         return r.choice(inside)
-    if k < 0.55:
+    if k < 0.60:
         return "content/" + gen_relpath(r, dots=0.0, allow_empty=False)
     if k < 0.70:
         return "content/" + "/".join([".."] * r.randrange(1, 4)) + "/" + r.choice(["victim", "out/victim2", "dist/audit.json.gz", "out/lnk"])
@@ -371,7 +373,7 @@ def scenario(r, jail):
 
 def gen_hostile(r, jail):
     """-> (members, vsn)"""
-    if r.random() < 0.45:
+    if r.random() < 0.40:
         ms = scenario(r, jail)
         if r.random() < 0.3:
             ms.insert(r.randrange(len(ms) + 1), gen_member(r, [m["name"] for m in ms], jail))
@@ -546,17 +548,24 @@ def classify_violation(base, members, vsn, var, changed):
         out, before, after, ws_rel, audit_rel, _ = res
         al = allowed_rel(v, ws_rel, audit_rel)
         return bool(diff_snap(outside_part(before, al), outside_part(after, al)))
-    no_lnk = [m for m in members if m["type"] != "lnk"]
-    if len(no_lnk) != len(members) and not still(no_lnk, var):
-        return "hardlink-linkname-escapes-content"
     def dotted(m):
         n = m["name"]
         n = n[8:] if n.startswith("content/") else n
         return ".." in n.split("/")
-    no_dots = [m for m in no_lnk if not dotted(m)]
-    if len(no_dots) != len(no_lnk) and not still(no_dots, var):
-        return "dotdot-through-missing-directory-creates-outside-directory"
-    if var.get("inbound") and not still(no_dots, dict(var, inbound=False)):
+    new_dir = any(a is None and b is not None and b[0] == "dir" for a, b in changed.values())
+    no_dots = [m for m in members if not dotted(m)]
+    no_lnk = [m for m in members if m["type"] != "lnk"]
+    tests = [("dotdot-through-missing-directory-creates-outside-directory", no_dots, var),
+             ("hardlink-linkname-escapes-content", no_lnk, var)]
+    if not new_dir:
+        tests.reverse()
+    for sig, ms, v in tests:
+        if len(ms) != len(members) and not still(ms, v):
+            return sig
+    both = [m for m in no_lnk if not dotted(m)]
+    if len(both) != len(members) and not still(both, var):
+        return tests[0][0]
+    if var.get("inbound") and not still(both, dict(var, inbound=False)):
         return "symlink-member-replaces-outside-symlink-pointing-into-workspace"
     return "outside-modified:" + ",".join(sorted({(b or a)[0] for a, b in changed.values()}))
 
@@ -652,6 +661,33 @@ def gen_tree(r, root, size=None):
     return made
 
 
+def read_names(data):
+    """(name, type, linkname) of every member as the tar reader reports them"""
+    with tarfile.open(fileobj=io.BytesIO(data), mode="r:*") as tar:
+        return [(ti.name, TYPE_NAMES.get(ti.type, "?"), ti.linkname) for ti in tar], dict(tar.pax_headers)
+
+
+def pack_layout(data, src_snap):
+    """the documented layout of an artifact: pax version 1, first the audit trail below meta/, then the `content` directory,
+    then exactly the entries of the tree below content/ (hard links name an earlier entry below content/)"""
+    names, pax = read_names(data)
+    if pax.get("bob-archive-vsn") != "1":
+        return "pax header bob-archive-vsn is %r" % pax.get("bob-archive-vsn")
+    if len(names) < 2 or names[0][:2] != ("meta/audit.json.gz", "reg") or names[1][:2] != ("content", "dir"):
+        return "first members are %r" % (names[:2],)
+    rest = names[2:]
+    bad = [n for n in rest if not n[0].startswith("content/")]
+    if bad:
+        return "member outside content/: %r" % (bad[0],)
+    rels = [n[0][8:] for n in rest]
+    if sorted(rels) != sorted(src_snap):
+        return "members differ from the tree: %r" % (sorted(set(rels) ^ set(src_snap))[:3],)
+    for i, (n, t, l) in enumerate(rest):
+        if t == "lnk" and (not l.startswith("content/") or l[8:] not in rels[:i]):
+            return "hard link %r -> %r does not name an earlier member" % (n, l)
+    return None
+
+
 def check_fidelity(ctx, work, seed):
     """oracle (i) on one generated tree (everything derives from `seed`)"""
     from bob.archive import TarHelper
@@ -692,6 +728,9 @@ def check_fidelity(ctx, work, seed):
     finally:
         os.umask(old)
     case = {"kind": "fidelity", "tree_seed": seed}
+    lay = pack_layout(buf.getvalue(), s0)
+    if lay is not None:
+        ctx.violation("artifact layout: " + lay, case, "pack-layout")
     ctx.case(("fid", seed), nontrivial=n > 0, sample={"fidelity_tree_seed": seed, "entries": n, "artifact_bytes": len(buf.getvalue())})
     ctx.count("fidelity_entries", "0" if n == 0 else "1-9" if n < 10 else "10+")
     if err is not None:
@@ -720,12 +759,12 @@ def check_fidelity(ctx, work, seed):
 
 # ====================================================================== oracle
 
-def oracle_fidelity(ctx, frac=0.18):
+def oracle_fidelity(ctx, frac=0.12):
     import time
     r = ctx.subrng("fidelity")
     work = os.path.join(scratch_dir(ctx), "fid")
     for i in range(ctx.scale(200, 10000)):
-        if time.time() > phase_deadline(ctx, frac):
+        if time.time() > phase_deadline(ctx, frac) and i >= 25:
             ctx.skip("fidelity stream stopped after %d trees (time budget / machine load)" % i) if i < 100 else None
             break
         check_fidelity(ctx, work, r.getrandbits(48))
@@ -737,7 +776,7 @@ def oracle_hostile(ctx, tag, n, frac):
     r = ctx.subrng(tag)
     base = os.path.join(scratch_dir(ctx), "jail-" + tag)
     for i in range(n):
-        if time.time() > phase_deadline(ctx, frac):
+        if time.time() > phase_deadline(ctx, frac) and i >= 150:
             ctx.skip("hostile archive stream stopped after %d archives (time budget / machine load)" % i) if i < n // 3 else None
             break
         var = gen_jail_variant(r)
@@ -752,11 +791,22 @@ def oracle_hostile(ctx, tag, n, frac):
     shutil.rmtree(base, ignore_errors=True)
 
 
+def _timed(ctx, name, fn):
+    import time
+    t = time.time()
+    try:
+        return fn()
+    finally:
+        ctx.notes.setdefault("c08_phase_seconds", {})[name] = round(time.time() - t, 1)
+
+
 def oracle(ctx):
     try:
-        oracle_fidelity(ctx)
-        oracle_hostile(ctx, "hostile", ctx.scale(1500, 60000), 0.38)
-        ctx._c08_dl = oracle_corruption(ctx)
+        _timed(ctx, "start_offset", lambda: phase_deadline(ctx, 0))
+        ctx.notes["c08_phase_seconds"]["before_oracle"] = round(ctx._c08_phase0 - ctx.t0, 1)
+        _timed(ctx, "fidelity", lambda: oracle_fidelity(ctx))
+        _timed(ctx, "hostile", lambda: oracle_hostile(ctx, "hostile", ctx.scale(1500, 60000), 0.34))
+        ctx._c08_dl = _timed(ctx, "corruption", lambda: oracle_corruption(ctx))
     finally:
         drop_scratch(ctx)
 
@@ -847,8 +897,6 @@ def model_structural(base, reply):
 OUTSIDE_MODEL = {"err:tarerror", "err:internal:RecursionError", "err:internal:AttributeError", "err:removeError"}
 
 
-TYPE_NAMES = {tarfile.REGTYPE: "reg", tarfile.AREGTYPE: "reg", tarfile.DIRTYPE: "dir", tarfile.SYMTYPE: "sym", tarfile.LNKTYPE: "lnk",
-              tarfile.FIFOTYPE: "fifo", tarfile.CHRTYPE: "chr"}
 
 
 def members_as_read(data):
@@ -865,36 +913,48 @@ def members_as_read(data):
     return out, vsn
 
 
-def correspond_hostile(ctx, n):
+def correspond_hostile(ctx, n, batch=1500):
+    import time
     r = ctx.subrng("corr-hostile")
     base = os.path.join(scratch_dir(ctx), "jail-corr")
     cfg = model_cfg(ctx)
-    reqs, impls, cases = [], [], []
-    for i in range(n):
-        if __import__("time").time() > phase_deadline(ctx, 0.88):
-            ctx.skip("hostile correspondence stopped after %d archives (time budget / machine load)" % i) if i < n // 3 else None
+    done = 0
+    while done < n:
+        reqs, impls, cases = [], [], []
+        stop = False
+        for i in range(min(batch, n - done)):
+            if time.time() > phase_deadline(ctx, 0.93) and done + i >= 150:
+                if done + i < n // 3:
+                    ctx.skip("hostile correspondence stopped after %d archives (time budget / machine load)" % (done + i))
+                stop = True
+                break
+            var = gen_jail_variant(r)
+            jail = os.path.join(base, PAD, "jail")
+            members, vsn = gen_hostile(r, jail)
+            if any(ord(ch) > 0xffff for m in members for ch in m["name"] + m["link"]):
+                continue
+            res = run_hostile(base, members, vsn, var)
+            if res is None or res[0] == "err:timeout":
+                continue
+            out, before, after, ws_rel, audit_rel, jail = res
+            _, dest, audit, _, _ = jail_paths(base, var)
+            seen, seen_vsn = members_as_read(build_archive(members, vsn))
+            if seen is None:
+                continue
+            req = {"op": "extract", "setup": True, "cfg": cfg, "dest": [c for c in dest.split("/") if c],
+                   "audit": [c for c in audit.split("/") if c], "vsn": seen_vsn, "members": seen}
+            req.update(fs_request(base, before))
+            reqs.append(req)
+            impls.append((out, structural(after)))
+            cases.append({"kind": "hostile", "members": members, "vsn": vsn, "jail": var})
+        done += batch
+        compare_hostile(ctx, base, cases, impls, ctx.lean(DRIVER, reqs) if reqs else [])
+        if stop:
             break
-        var = gen_jail_variant(r)
-        jail = os.path.join(base, PAD, "jail")
-        members, vsn = gen_hostile(r, jail)
-        if any(ord(ch) > 0xffff for m in members for ch in m["name"] + m["link"]):
-            continue
-        res = run_hostile(base, members, vsn, var)
-        if res is None or res[0] == "err:timeout":
-            continue
-        out, before, after, ws_rel, audit_rel, jail = res
-        _, dest, audit, _, _ = jail_paths(base, var)
-        seen, seen_vsn = members_as_read(build_archive(members, vsn))
-        if seen is None:
-            continue
-        req = {"op": "extract", "setup": True, "cfg": cfg, "dest": [c for c in dest.split("/") if c],
-               "audit": [c for c in audit.split("/") if c], "vsn": seen_vsn, "members": seen}
-        req.update(fs_request(base, before))
-        reqs.append(req)
-        impls.append((out, structural(after)))
-        cases.append({"kind": "hostile", "members": members, "vsn": vsn, "jail": var})
     shutil.rmtree(base, ignore_errors=True)
-    replies = ctx.lean(DRIVER, reqs) if reqs else []
+
+
+def compare_hostile(ctx, base, cases, impls, replies):
     for c, (out, (ent, groups)), rep in zip(cases, impls, replies):
         ctx.case(("corr", canon_members(c["members"]), c["vsn"], sorted(c["jail"].items())),
                  nontrivial=any(m["name"].startswith("content/") for m in c["members"]))
@@ -952,10 +1012,55 @@ def correspond_accept(ctx):
             ctx.trace_validated(1)
 
 
+def correspond_namespace(ctx, n):
+    """real _pack member list vs Model.packMembers, and Model.dispatch on every real member name"""
+    import random
+    from bob.archive import TarHelper
+    r = ctx.subrng("corr-namespace")
+    work = os.path.join(scratch_dir(ctx), "ns")
+    reqs, wants = [], []
+    for i in range(n):
+        shutil.rmtree(work, ignore_errors=True)
+        src = os.path.join(work, "workspace")
+        os.makedirs(work)
+        gen_tree(random.Random(r.getrandbits(48)), src, size=r.choice([0, 2, 6, 12]))
+        audit = os.path.join(work, "audit.json.gz")
+        with open(audit, "wb") as f:
+            f.write(b"A")
+        buf = io.BytesIO()
+        TarHelper()._pack(None, buf, audit, src)
+        names, _ = read_names(buf.getvalue())
+        if any(ord(ch) > 0xffff for nm in names for ch in nm[0] + nm[2]) or any(t == "?" for _, t, _ in names):
+            continue
+        # the listing of the tree as the tar library walks it: the same library, packing the tree under another arcname
+        ref = io.BytesIO()
+        with tarfile.open(fileobj=ref, mode="w", format=tarfile.PAX_FORMAT) as tar:
+            tar.add(src, arcname="T")
+        rels = [{"name": nm[2:], "type": t, "link": l[2:] if t == "lnk" else l, "mode": 0, "data": ""}
+                for nm, t, l in read_names(ref.getvalue())[0][1:]]
+        reqs.append({"op": "pack", "auditBase": "audit.json.gz", "auditData": "", "rels": rels})
+        wants.append(("pack", [(nm, t, l) for nm, t, l in names]))
+        for nm, t, l in names:
+            reqs.append({"op": "dispatch", "cfg": model_cfg(ctx), "member": {"name": nm, "type": t, "link": l, "mode": 0, "data": ""}})
+            want = {"ok": "audit"} if nm == "meta/audit.json.gz" else {"ok": "skip"} if nm in ("content", "meta") else \
+                {"ok": "content", "name": nm[8:], "link": l[8:] if t == "lnk" else l}
+            wants.append(("dispatch", want))
+    shutil.rmtree(work, ignore_errors=True)
+    for (kind, want), req, rep in zip(wants, reqs, ctx.lean(DRIVER, reqs) if reqs else []):
+        ctx.case(("ns", kind, json.dumps(req, sort_keys=True)))
+        got = [(m["name"], m["type"], m["link"]) for m in rep["members"]] if kind == "pack" else rep
+        if got != want:
+            ctx.disagree("TarHelper._pack member list == Model.packMembers" if kind == "pack" else
+                         "member name handling of __extractPackage == Model.dispatch", req, want, got)
+        else:
+            ctx.trace_validated(1)
+
+
 def correspond(ctx):
     try:
-        correspond_hostile(ctx, ctx.scale(2500, 100000))
-        correspond_accept(ctx)
+        _timed(ctx, "corr_namespace", lambda: correspond_namespace(ctx, ctx.scale(40, 2000)))
+        _timed(ctx, "corr_hostile", lambda: correspond_hostile(ctx, ctx.scale(2500, 100000)))
+        _timed(ctx, "corr_accept", lambda: correspond_accept(ctx))
     finally:
         drop_scratch(ctx)
 
@@ -1197,7 +1302,7 @@ def corruption_worker(job):
                 except Exception:  # noqa
                     sem, obs["auditHash"] = None, "unreadable"
                 recorded = BobState().getResultHash(ws)
-                res = {"spec": list(spec), "out": out, "obs": obs, "identical": data == art,
+                res = {"spec": list(spec), "tree_seed": tree_seed, "out": out, "obs": obs, "identical": data == art,
                        "tree_ok": obs["workspaceHash"] == h.hex(), "audit_ok": sem == audit_sem,
                        "recorded": recorded.hex() if recorded is not None else None, "expect": h.hex(), "len": len(art),
                        "secs": round(__import__("time").time() - t0, 3)}
@@ -1246,9 +1351,11 @@ def judge_corruption(ctx, res, tag):
     ctx.case((tag, spec, res["expect"]), nontrivial=not res["identical"])
     ctx.count("download_outcome", out)
     ctx.count("download_input", spec[0])
-    case = {"kind": "corruption", "tree_seed": None, "spec": spec}
     if out == "accepted":
-        if not (res["tree_ok"] and res["audit_ok"]):
+        if spec[0] == "no-audit":
+            ctx.violation("an artifact without audit trail was accepted (a stale audit file of an earlier download validated it)", res,
+                          "artifact-without-audit-accepted")
+        elif not (res["tree_ok"] and res["audit_ok"]):
             ctx.violation("a %s artifact was accepted as package result although the extracted tree/audit differs from what was packed "
                           "(tree identical: %s, audit identical: %s)" % (spec[0], res["tree_ok"], res["audit_ok"]), res,
                           "corrupt-artifact-accepted")
@@ -1263,10 +1370,16 @@ def judge_corruption(ctx, res, tag):
 
 
 def phase_deadline(ctx, frac):
-    return ctx.t0 + ctx.budget * frac
+    """absolute time at which the phase that owns the share [.., frac] of the time left for the harness must stop.
+    The shares refer to what is left of the budget when the oracle starts (the Lean build and audit come first);
+    under machine load the streams shrink (recorded via ctx.skip), they never turn into a verdict."""
+    import time
+    st = ctx.__dict__.setdefault("_c08_phase0", time.time())
+    avail = max(25.0, ctx.budget - (st - ctx.t0) - 4.0)
+    return st + avail * frac
 
 
-def oracle_corruption(ctx, tag="corruption", frac=0.62):
+def oracle_corruption(ctx, tag="corruption", frac=0.60):
     """forked workers (own cwd / BobState each); stops at the phase deadline and records what was not run"""
     import multiprocessing as mp
     import time
@@ -1275,15 +1388,14 @@ def oracle_corruption(ctx, tag="corruption", frac=0.62):
     out = []
     planned = sum(len(j[2]) for j in jobs)
     with mp.get_context("fork").Pool(min(16, os.cpu_count() or 4)) as pool:
-        it = pool.imap(corruption_worker, jobs, chunksize=1)
-        for job in jobs:
+        it = pool.imap_unordered(corruption_worker, jobs, chunksize=1)
+        for _ in jobs:
             try:
-                results = it.next(timeout=max(1.0, deadline + 8 - time.time()))
+                results = it.next(timeout=max(1.0, deadline + 10 - time.time()))
             except mp.TimeoutError:
                 pool.terminate()
                 break
             for res in results:
-                res["tree_seed"] = job[1]
                 judge_corruption(ctx, res, tag)
                 out.append(res)
     if len(out) < planned * 0.8:
